@@ -21,24 +21,32 @@ def gen(rng, count, quick):
         dt = rng.choice([3, 4])
         fpt = k % 4
         e1 = f32(rng.choice([0.002, 0.005, 0.01, 0.02]))
-        zoom = rng.choice([0.5, 0.7, 1.0, 1.4])
+        # every third case: a train of 2 or 3 bunches with different starts (each relaxes on its own)
+        nb = rng.choice([2, 3]) if k % 3 == 2 else 1
+        zooms = [rng.choice([0.5, 0.7, 1.0, 1.4]) for _ in range(nb)]
+        zoom = zooms[0]
         sh = rng.choice([0.0, 0.0, rng.uniform(-0.6, 0.6)])
         pmin, pmax = f32(-6 + sh), f32(6 + sh)
         delta = (pmax - pmin) / (n - 1)
-        mean = rng.choice([0.0, 0.0, rng.uniform(-0.5, 0.5)])
+        means = [rng.choice([0.0, 0.0, rng.uniform(-0.5, 0.5)]) for _ in range(nb)]
+        mean = means[0]
         steps = int(min(2000 if quick else 6000, 6.0 / e1)) if fpt in (1, 3) else int(1.0 / e1)
         every = max(1, steps // 40)
+        if nb > 1:
+            steps = min(steps, 600)
+            every = max(1, steps // 40)
         data = []
-        for x in range(n):
-            gx = math.exp(-((x - n / 2) / (n / 8)) ** 2)
-            for y in range(n):
-                p = pmin + y * delta
-                data.append(f32(gx * math.exp(-0.5 * ((p - mean) / zoom) ** 2)))
+        for b in range(nb):
+            for x in range(n):
+                gx = math.exp(-((x - n / 2) / (n / 8)) ** 2)
+                for y in range(n):
+                    p = pmin + y * delta
+                    data.append(f32(gx * math.exp(-0.5 * ((p - means[b]) / zooms[b]) ** 2)))
         cid = "r%d" % k
         recs.append(dict(id=cid, n=n, dt=dt, fpt=fpt, e1=e1, zoom=zoom, mean=mean, delta=delta, steps=steps,
-                         every=every, pmin=pmin, pmax=pmax,
-                         optext="fpiter %s %d %d %d %d %d\nextra %s\ndata %s\nrun\n" % (
-                             cid, n, dt, fpt, steps, every,
+                         every=every, pmin=pmin, pmax=pmax, nb=nb, zooms=zooms, means=means,
+                         optext="fpiter %s %d %d %d %d %d %d\nextra %s\ndata %s\nrun\n" % (
+                             cid, n, dt, fpt, steps, every, nb,
                              " ".join(f2h(x) for x in [e1, -6.0, 6.0, pmin, pmax]),
                              " ".join(f2h(x) for x in data))))
     return recs
@@ -56,6 +64,17 @@ def series(lines):
 
 def oracle(rec, A):
     ser = series(A.get(rec["id"], []))
+    nb = rec.get("nb", 1)
+    if len(ser) % nb != 0:
+        return "moment series incomplete"
+    for b in range(nb):
+        f = oracle1(rec, ser[b::nb])
+        if f:
+            return f if nb == 1 else "bunch %d of %d (start zoom %g, mean %g): %s" % (b, nb, rec["zooms"][b], rec["means"][b], f)
+    return None
+
+
+def oracle1(rec, ser):
     if len(ser) < 3:
         return "no moment series"
     e1, d, fpt, dt = rec["e1"], rec["delta"], rec["fpt"], rec["dt"]
@@ -152,7 +171,7 @@ def run(chk):
                        "same map bitwise; distinct = distinct op text")
     d = {}
     for r in recs:
-        for key in ("dt", "fpt", "zoom", "n"):
+        for key in ("dt", "fpt", "zoom", "n", "nb"):
             d["%s=%s" % (key, r[key])] = d.get("%s=%s" % (key, r[key]), 0) + 1
     chk.cov["distribution"] = d
     chk.cov["steps_iterated"] = sum(r["steps"] for r in recs)
